@@ -59,6 +59,16 @@ PHI = {"pi/2": np.pi / 2, "-pi/2": -np.pi / 2, "pi/4": np.pi / 4, "0.9pi": 0.9 *
        "-pi/4": -np.pi / 4, "pi/3": np.pi / 3, "0.6pi": 0.6 * np.pi, "-0.8pi": -0.8 * np.pi}
 
 
+def setup(tier, seed):
+    """parent process, before the fork: the first run() imports ray (several seconds); do it once"""
+    import wannierberri as wb
+    from wannierberri.calculators import static
+    from wbmc import berry_harness as bh, models2d
+    s = models2d.bundled("Haldane_tbm")
+    with bh.case_tmpdir() as tmp:
+        bh.tmp_run(s, wb.Grid(s, NK=[4, 4, 1]), {"ahc": static.AHC(Efermi=np.array([0.0, 0.1]), print_comment=False)}, tmp)
+
+
 def cases(tier, seed):
     quick = tier == "quick"
     # (a) band-sum rule at k
@@ -186,15 +196,16 @@ def run_ahc_top(case, seed):
     calcs = {"ahc": static.AHC(Efermi=Ef, tetra=case["tetra"], kwargs_formula=kwf, print_comment=False), "tab": tab}
     with bh.case_tmpdir() as tmp:
         grid = wb.Grid(s, NK=NK, NKFFT=1) if case["tetra"] else wb.Grid(s, NK=NK)
+        dense = [int(x) for x in grid.dense]
         res = bh.tmp_run(s, grid, calcs, tmp)
         ahc = np.array(res.results["ahc"].data)               # [nEf,3]
         O = np.array(res.results["tab"].results["berry"].data)  # [nk,nb,3]
         E = np.array(res.results["tab"].results["Energy"].data)
     if E.max() >= top:
         return {"ok": False, "key": "harness:spectrum_bound", "detail": f"{E.max()} >= {top}"}
-    nkexp = int(np.prod(NK))
-    if O.shape != (nkexp, s.num_wann, 3):
-        return {"ok": False, "key": "tabulate:grid_shape", "detail": f"{syskey(case['sys'])} NK={NK} shape {O.shape}"}
+    nkexp = int(np.prod(dense))          # the Grid may enlarge the requested NK (minimal FFT grid of the R-set)
+    if np.any(np.array(dense) < np.array(NK)) or O.shape != (nkexp, s.num_wann, 3):
+        return {"ok": False, "key": "tabulate:grid_shape", "detail": f"{syskey(case['sys'])} NK={NK} dense={dense} shape {O.shape}"}
     ksum = np.abs(O.sum(axis=1)).max(axis=1)                    # per k
     kscale = np.maximum(1.0, np.abs(O).max(axis=(1, 2)))
     if np.any(ksum > 1e-10 * kscale):
@@ -250,16 +261,27 @@ def run_chern(case, seed):
     if not fillings:
         gaps = [round(float(E[..., n].min() - E[..., n - 1].max()), 4) for n in range(1, nw)]
         return {"ok": True, "nontrivial": False, "obs": {"skipped": "no gap >= 0.3", "gaps": gaps}}
-    top = float(E.max()) + 1.0
-    Efs = [f[2] for f in fillings] + [top]
+    # one AHC calculator on an evenly spaced Fermi-level axis (the calculator requires even spacing) of step 0.05
+    # from below the spectrum to above it; each gap >= 0.3 then contains a level >= 0.125 away from both band edges
+    dEf = 0.05
+    Efgrid = np.arange(float(E.min()) - 0.5, float(E.max()) + 1.0 + dEf, dEf)
+    iEf = []
+    for nocc, gap, mid in fillings:
+        j = int(np.argmin(np.abs(Efgrid - mid)))
+        assert E[..., nocc - 1].max() + 0.1 < Efgrid[j] < E[..., nocc].min() - 0.1
+        iEf.append(j)
+    iEf.append(len(Efgrid) - 1)
+    assert Efgrid[-1] > E.max() + 0.9
+    Efs = [float(Efgrid[j]) for j in iEf]
+    fillings = [(n, g, ef) for (n, g, m), ef in zip(fillings, Efs)]
+    top = Efs[-1]
     q = {}
     with bh.case_tmpdir() as tmp:
         for NK in case["NK"]:
-            # one calculator per Fermi level (the levels are arbitrary, not evenly spaced), evaluated in one run
-            calc = {f"ahc{i}": static.AHC(Efermi=np.array([ef]), print_comment=False) for i, ef in enumerate(Efs)}
+            calc = {"ahc": static.AHC(Efermi=Efgrid, print_comment=False)}
             res = bh.tmp_run(s, wb.Grid(s, NK=[NK, NK, 1]), calc, tmp)
-            vals = [np.array(res.results[f"ahc{i}"].data)[0] for i in range(len(Efs))]
-            q[NK] = np.array(vals) * (c_out * angstrom) / (elementary_charge ** 2 / h)      # [nEf,3]
+            vals = np.array(res.results["ahc"].data)[iEf]
+            q[NK] = vals * (c_out * angstrom) / (elementary_charge ** 2 / h)      # [nEf,3]
     nt = []
     obs = []
     NKd = case["NK"][-1] if len(case["NK"]) == 2 else 96
